@@ -50,7 +50,7 @@ def wmutex(ctx):
                    "" if ok else str([(e[3], e[2].mode) for e in acq]), fn=f.label, inst=f.qname)
 
 
-def publish(ctx, rid="C12.publish"):
+def publish(ctx, rid="C12.publish", reentrancy=True):
     ctx.rule(rid, "insertions: node constructed and its own links stored before the single publishing store; a front "
              "insertion into a non-empty list links the old head first", floor=16)
     fb = ctx.fb
@@ -81,7 +81,7 @@ def publish(ctx, rid="C12.publish"):
                 mk = [st for st in f.stmts.values() if st["k"] == "CallExpr" and callee_fq(st) == "gmlc::libguarded::detail::allocate_unique"]
                 ok = len(mk) == 1 and f.dominates(f.pos_of(mk[0]), pubs[0]["pos"])
                 ctx.ob(rid, ok, f.loc(pubs[0]["st"]), "the node is fully constructed before it is published", "", fn=f.label, inst=f.qname)
-                if mk:
+                if mk and reentrancy:
                     # the element's constructor is user code and may re-enter the list (recursive mutexes are documented as
                     # supported): the ends of the list must be read after it ran
                     early = [e for e in ev if e["k"] == "aload" and e["fld"] in ((RCU, "m_head"), (RCU, "m_tail")) and
